@@ -239,8 +239,11 @@ def coq_eval(tag, text, timeout=900):
         f = os.path.join(d, "cases.v")
         open(f, "w").write(text)
         p = sh(["timeout", str(timeout), "coqc", "-Q", COQ, "GMQ", f], cwd=d, timeout=timeout + 30)
+        if p.returncode != 0 and not (p.stdout + p.stderr).strip():
+            # killed by the time limit or by the machine (no message from coqc): once more, with twice the time
+            p = sh(["timeout", str(2 * timeout), "coqc", "-Q", COQ, "GMQ", f], cwd=d, timeout=2 * timeout + 30)
         if p.returncode != 0:
-            raise Infra("model evaluation failed (coqc):\n" + (p.stdout + p.stderr)[-3000:])
+            raise Infra("model evaluation failed (coqc, exit %d):\n" % p.returncode + (p.stdout + p.stderr)[-3000:])
         return p.stdout
     finally:
         shutil.rmtree(d, ignore_errors=True)
